@@ -22,8 +22,11 @@ the exact sequence of validators it went through).
 """
 import ast, os, sys, io, itertools, tempfile, shutil, importlib.util, contextlib
 
-NAMES = ['self', 'args', 'a', 'b', 'c', 'd', 'zz', 'yy', 'kwargs', 'cls', 'rest', '']      # '' (index 11) = Lean's emptyName
+from gen._validate_names import NAMES      # shared with the translator; '' (index 11) = Lean's emptyName
 NID = {n: i for i, n in enumerate(NAMES)}
+# names for ordinary parameters of the decorated function, declared or not: single letters, substrings / superstrings of self, cls,
+# args, kwargs, and names the library itself uses as keywords / locals (value, key, name, validators, default, required, ...)
+RICH_NAMES = [n for n in NAMES[12:] if n.isidentifier()] + ['args', 'kwargs', 'cls']
 NOV = 'NOVALUE'
 SELF_ID = 90
 FALSY = {"0": 1, "''": 2, "[]": 3, "{}": 4, "()": 5, "False": 6, "0.0": 7}
@@ -293,6 +296,13 @@ def gen_program(rng, b, allow_varargs, n=None):
         for i in rng.sample(range(n), rng.choice([1, 1, 2]) if n > 1 else 1):
             nm = rng.choice(SPECIAL_NAMES)
             if nm in names or (nm == 'self' and (method or i == 0)) or (nm == 'args' and varargs and var_name == 'args'):
+                continue
+            names[i] = nm
+    if rng.random() < 0.4:
+        # parameters called like a substring / superstring of self, cls, args, kwargs, or like a keyword / local of the library
+        for i in rng.sample(range(n), min(n, rng.choice([1, 1, 2, n]))):
+            nm = rng.choice(RICH_NAMES)
+            if nm in names or (varargs and nm == var_name):
                 continue
             names[i] = nm
     nkw = rng.choice([0, 0, 0, 1, 2]) if n > 1 else 0
@@ -1215,6 +1225,12 @@ def byname_matrix(rng, n, omissions=True, full_flags=True, stride=1):
                         elif nv == 4:
                             names[0] = 'cls'
                             names[n - 1] = 'kwargs' if n > 1 else names[0]
+                        elif nv >= 5:
+                            # substrings / superstrings of self, cls, args, kwargs; names of the library's own keywords and locals
+                            pick = [RICH_NAMES[(z // 35 + 11 * i) % len(RICH_NAMES)] for i in range(n)]
+                            for i in (range(n) if nv == 5 else [(z // 35) % n]):
+                                if pick[i] not in names:
+                                    names[i] = pick[i]
                         b = Builder()
                         star = (z // 35) % 3 == 0      # the text `*args` inside str(signature): the string '*args' as a default value
                         pos = [(nm, ((b.lit(STAR_ARGS_TEXT) if star and i == n - 1 else b.obj()) if i >= n - ndef else NOV)) for i, nm in enumerate(names)]
@@ -1386,6 +1402,48 @@ def naming_enum(rng):
                                         args, kw = [], []
                                     st['rej'].add(chain_inputs(b, p, vals_in[target])[where])
                                     out.append(assemble(b, sig, params, bool(ctr % 5), False, mode, ctr % 4 == 1, args, kw, origin='naming_enum'))
+    return out
+
+
+def names_enum(rng):
+    """the NAME of a parameter must not matter: `def f(a, <name>)` / `def f(<name>, a)` for every name of the rich pool (single
+    letters, substrings / superstrings of self / cls / args / kwargs, the library's own keywords and locals) x a Parameter declared
+    for it or not x arrival route (positional, keyword, mixed, positional in a function with *args + a surplus positional) x strict x
+    mode; method / async / position of the name cycle with a counter"""
+    out = []
+    ctr = rng.randrange(1000)
+    mk = lambda nm, **kw: dict({'name': nm, 'kind': 'plain', 'required': True, 'dflt': NOV, 'ext': NOV, 'vt': None,
+                                'vals': [{'rej': set(), 'crash': set(), 'map': 'mul', 'k': 1}], 'raw': None}, **kw)
+    for nm in RICH_NAMES:
+        for declared in (False, True):
+            for route in ('pos', 'kw', 'mixed', 'varpos'):
+                for strict in (True, False):
+                    for mode in MODES:
+                        ctr += 1
+                        b = Builder()
+                        other = 'a' if nm != 'a' else 'b'
+                        first = bool((ctr // 3) % 2)
+                        names = [nm, other] if first else [other, nm]
+                        varargs = route == 'varpos'
+                        var_name = 'rest' if nm == 'args' else ['args', 'rest'][ctr % 2]
+                        sig = {'method': ctr % 3 == 0, 'pos': [(n_, NOV) for n_ in names], 'varArgs': varargs, 'kwOnly': [], 'varName': var_name}
+                        params = [mk(other)] + ([mk(nm)] if declared else [])
+                        if varargs:
+                            params.append(mk('zz', required=False, dflt=b.obj()))       # takes the surplus positional
+                        if ctr % 2:
+                            params.reverse()
+                        vals = [b.obj(), b.obj()]
+                        if route == 'pos':
+                            args, kw = list(vals), []
+                        elif route == 'kw':
+                            args, kw = [], list(zip(names, vals))
+                            if ctr % 4 >= 2:
+                                kw.reverse()
+                        elif route == 'mixed':
+                            args, kw = vals[:1], [(names[1], vals[1])]
+                        else:
+                            args, kw = list(vals) + [b.obj()], []
+                        out.append(assemble(b, sig, params, strict, False, mode, ctr % 4 == 1, args, kw, origin='names_enum'))
     return out
 
 
